@@ -830,6 +830,8 @@ func observeC20x(c *Case, in *PacketIn, extsNil bool, m c20Mut, onClone, viaWire
 	try(func() { after, _ = mutated.Marshal() })
 	if !bytes.Equal(before, after) {
 		c.Tag("mutation-effective")
+	} else if m.kind != 0 {
+		c.Trivial() // the mutation had nothing to change (empty slice, absent id, rejected value)
 	}
 	writeSide(&c.O, other)
 	marshalTok(&c.O, other)
